@@ -93,7 +93,21 @@ def publishVerdicts (pre : Server) (io : ImplOut) (origin topic payload : Str) (
             [fail "C04" "-" s!"c{n} was sent QoS {q}, spec wants min(published {pubQos}, subscription {subQ}, server {pre.caps.maximumQos}) = {want}"]
           else []
         | none => []
-      r1 ++ r2
+      -- C04: the subscription identifiers carried = the identifiers of the client's matching subscriptions that have
+      -- one (every plain one must be there; nothing beyond the plain and shared ones may be); MQTT 5 receivers only
+      let plainIds := ((ents.filter fun (cid, sub, g) => cid == c.id && g.isNone && sub.ident > 0).map fun (_, sub, _) => sub.ident).eraseDups
+      let sharedIds := ((ents.filter fun (cid, sub, g) => cid == c.id && g.isSome && sub.ident > 0).map fun (_, sub, _) => sub.ident).eraseDups
+      let got : List Nat := match fieldOf p "si=" with
+        | some t => if t.isEmpty then [] else (t.splitOn "+").filterMap (·.toNat?)
+        | none => []
+      let r3 := if c.ver != 5 || !ok || !accepted || blockedByHook.isSome then [] else
+        let missingIds := plainIds.filter fun i => !got.contains i
+        let extraIds := got.filter fun i => !plainIds.contains i && !sharedIds.contains i
+        (if missingIds.isEmpty then [] else
+           [fail "C04" "-" s!"c{n}: the delivered PUBLISH carries subscription identifiers {got} and lacks {missingIds} of its matching subscriptions"]) ++
+        (if extraIds.isEmpty then [] else
+           [fail "C04" "-" s!"c{n}: the delivered PUBLISH carries subscription identifiers {extraIds} that none of its matching subscriptions has"])
+      r1 ++ r2 ++ r3
   -- C03 completeness: every entitled connected client receives, unless a reported/flow-control excuse applies
   let missing := if !accepted || blockedByHook.isSome then [] else
     pre.clients.flatMap fun (cid, i) =>
